@@ -40,41 +40,39 @@ def NBOXES(tier):
     return 5 if tier == "quick" else 6
 
 
-def MAXFAIL(tier):
-    return 1 if tier == "quick" else 2
+MAXCYCLES = 3
 
 
-def FAILMODE(tier, n):
-    """which precondition may be the failing one (see fail_options)"""
+def PLAN(tier, n):
+    """bounds for forests of n boxes -> (max failing preconditions per history, which precondition may fail (see fail_options),
+    max cycles of a history that contains a failing precondition).  Histories without failing precondition: always the full
+    product up to MAXCYCLES cycles."""
     if tier == "quick":
-        return "ends"
-    return "all" if n < NBOXES(tier) else "ends"
-
-
-def MAXCYCLES(tier):
-    return 3
+        return (1, "all", 3) if n < 5 else (1, "ends", 2)
+    return (2, "all", 3) if n < 6 else (1, "ends", 3)
 
 
 def BOUND(tier):
-    return MAXFAIL(tier)
+    return max(PLAN(tier, n)[0] for n in range(1, NBOXES(tier) + 1))
 
 
 def RULE(tier):
-    which = ("the failing precondition is the first preact of the top-most box to be entered or the last preact of the bottom-most one"
-             if tier == "quick" else
-             "the failing precondition is either preact of any one box to be entered (forests of %d boxes: first preact of the top-most "
-             "or last preact of the bottom-most box to be entered)" % NBOXES(tier))
+    def words(n):
+        maxfail, mode, failcyc = PLAN(tier, n)
+        return ("at most %d failing precondition(s) per history, the failing one being %s, such histories having <= %d cycles"
+                % (maxfail, "either preact of any one box that has to be entered" if mode == "all" else
+                   "the first preact of the top-most or the last preact of the bottom-most box that has to be entered", failcyc))
+    nb = NBOXES(tier)
     return ("every ordered box forest with 1..%d boxes and depth <= %d (sibling order matters: the first under is the primary under) "
             "x every box as first box x every history of 0..%d cycles followed by the end flag, where a cycle is 'no goact fires' or "
             "(a box of the ACTIVE pile whose goact fires, any destination box: sibling, cousin, ancestor, descendant, self, other tree) "
-            "with all preconditions met or with one precondition failing; at most %d failing precondition(s) per history (the deviation "
-            "bound; %s; everything else is the full product); plus every single failing precondition at the very first entry. Each "
-            "history is one execution of the real Boxer.run generator on freshly built boxes. Per cycle the observed "
-            "exacts/rexacts/renacts/enacts trace must equal the reference computed from active pile P and destination pile Q; per box "
-            "and context the two acts run in declaration order; a failed precondition leaves the trace empty and the active box "
-            "unchanged; at the end every box of the active pile exits exactly once bottom-up. Histories are distinct by construction "
-            "(prefix tree of cycles)."
-            % (NBOXES(tier), MAXDEPTH, MAXCYCLES(tier), MAXFAIL(tier), which))
+            "with all preconditions met (full product) or with one precondition failing (deviation bound: forests of < %d boxes: %s; "
+            "forests of %d boxes: %s); plus every single failing precondition at the very first entry. Each history is one execution "
+            "of the real Boxer.run generator on freshly built boxes. Per cycle the observed exacts/rexacts/renacts/enacts trace must "
+            "equal the reference computed from active pile P and destination pile Q; per box and context the two acts run in "
+            "declaration order; a failed precondition leaves the trace empty and the active box unchanged; at the end every box of "
+            "the active pile exits exactly once bottom-up. Histories are distinct by construction (prefix tree of cycles)."
+            % (nb, MAXDEPTH, MAXCYCLES, nb, words(nb - 1), nb, words(nb)))
 
 
 def EXHAUSTIVE(tier):
@@ -203,12 +201,15 @@ def cycle_options(par, active, allow_fail, mode):
     return opts
 
 
-def histories(par, first, maxcyc, maxfail, mode="all", shard=None):
+def histories(par, first, maxcyc, maxfail, mode="all", failcyc=None, shard=None):
+    """all histories (lists of cycles) for one forest and first box; the empty history = end right after the first pass"""
+    failcyc = maxcyc if failcyc is None else min(failcyc, maxcyc)
+
     def rec(active, depth, fails):
         yield []
-        if depth == maxcyc:
+        if depth == (failcyc if fails else maxcyc):
             return
-        opts = cycle_options(par, active, fails < maxfail, mode)
+        opts = cycle_options(par, active, fails < maxfail and depth < failcyc, mode)
         if depth == 0 and shard is not None:
             opts = [o for j, o in enumerate(opts) if j % shard[1] == shard[0]]
         for cyc, nxt, df in opts:
@@ -220,7 +221,7 @@ def histories(par, first, maxcyc, maxfail, mode="all", shard=None):
             for fi in range(NACTS):
                 yield [(INITFAIL, -1, fb, fi)]
     for h in rec(first, 0, 0):
-        if h or part0:          # the empty history (end right after the first pass) belongs to part 0
+        if h or part0:          # the empty history belongs to part 0
             yield h
 
 
@@ -299,26 +300,28 @@ def site_of(ex):
     return site
 
 
-LAST = NACTS - 1
 RANK = {c: i for i, c in enumerate(PHASES)}
 
 
 def digest(log, fail):
     """one pass over the trace of a cycle -> (box level sequence per context, contexts whose acts did not run in declaration
-    order, True if the four transition phases interleave).  Consecutive entries b#0, b#1 of one context form one group."""
+    order, True if the four transition phases interleave).  Up to NACTS consecutive entries of one box and context form one
+    group = one visit of that box in that context; inside a group the acts must appear as #0, #1."""
     got = dict(ex=[], rex=[], ren=[], en=[], re=[], af=[], pre=[])
     bad = []
     mixed = False
     top = -1
-    lb, lc, lk = None, None, LAST
+    lb, lc, n = None, None, NACTS
     for b, c, k in log:
-        if b == lb and c == lc and k == lk + 1:
-            lk = k
+        if b == lb and c == lc and n < NACTS:
+            if k != n:
+                bad.append(c)
+            n += 1
             continue
-        # a new group starts: the previous one must be complete (a failing preact legitimately ends its group) ...
-        if lk != LAST and not (lc == "pre" and (lb, lk) == fail):
+        # a new group starts: the previous one must be complete (a failing preact legitimately ends its group)
+        if n != NACTS and not (lc == "pre" and (lb, n - 1) == fail):
             bad.append(lc)
-        if k != 0:      # ... and this one must start with the first declared act
+        if k != 0:
             bad.append(c)
         got[c].append(b)
         r = RANK.get(c)
@@ -326,8 +329,8 @@ def digest(log, fail):
             if r < top:
                 mixed = True
             top = r
-        lb, lc, lk = b, c, k
-    if lk != LAST and not (lc == "pre" and (lb, lk) == fail):
+        lb, lc, n = b, c, 1
+    if n != NACTS and not (lc == "pre" and (lb, n - 1) == fail):
         bad.append(lc)
     return got, bad, mixed
 
@@ -365,10 +368,8 @@ class Lazy:
         return self.fn()
 
 
-def compare(log, exp, site, stage, where, fail=(-1, -1), off=False):
-    """violations of one cycle: observed trace against the expected boxes per phase; `where` is a thunk; `off` = the active pile
-    is not the firing box's own (primary-under) pile, a class of cases that gets its own keys"""
-    sfx = ":active-pile-off-primary" if off else ""
+def compare(log, exp, site, stage, where, fail=(-1, -1)):
+    """violations of one cycle: observed trace against the expected boxes per phase; `where` is a thunk"""
     got, bad, mixed = digest(log, fail)
     v = []
     log = list(log)
@@ -378,14 +379,14 @@ def compare(log, exp, site, stage, where, fail=(-1, -1), off=False):
     if stage == "failed":
         ran = [ctx for ctx in PHASES if got[ctx]]
         if ran:
-            v.append(("failed-precondition:%s:ran-%s%s" % (site, "+".join(ran), sfx), Lazy(
+            v.append(("failed-precondition:%s:ran-%s" % (site, "+".join(ran)), Lazy(
                 lambda: "%s: precondition #%d of b%d fails, yet %s" % (
                     where(), fail[1], fail[0], "; ".join("%s acts of %s ran" % (c, names(got[c])) for c in ran)))))
         return v
     clause = CLAUSES[stage]
     for ctx in PHASES:
         if got[ctx] != exp[ctx]:
-            v.append(("%s:%s:%s%s" % (clause[ctx], site, mismatch(got[ctx], exp[ctx]), sfx), Lazy(
+            v.append(("%s:%s:%s" % (clause[ctx], site, mismatch(got[ctx], exp[ctx])), Lazy(
                 lambda ctx=ctx: "%s: %s acts ran for %s, documented order is %s" % (where(), ctx, names(got[ctx]), names(exp[ctx])))))
     if mixed:
         v.append(("phase-order:%s" % site, Lazy(
@@ -474,10 +475,10 @@ def execute(par, first, hist, world=None):
         if r == "stop":
             viols.append(("ended-early:Boxer.run:cycle", "%s: run() returned without the end flag" % where()))
             return viols, tuple(obs), kinds
-        viols += compare(w.log, exp, "Boxer.run", stage, where, fail=(fb, fi), off=off)
+        viols += compare(w.log, exp, "Boxer.run", stage, where, fail=(fb, fi))
         obs.append(tuple(w.log))
         if w.active() != nxt:
-            viols.append(("active-box:Boxer.run:after-%s%s" % (stage, ":active-pile-off-primary" if off else ""), "%s: active box is %r, expected b%d" % (where(), w.boxer.box, nxt)))
+            viols.append(("active-box:Boxer.run:after-%s" % stage, "%s: active box is %r, expected b%d" % (where(), w.boxer.box, nxt)))
             gen.close()
             return viols, tuple(obs), kinds   # later cycles were enumerated for another state
         model = nxt
@@ -529,7 +530,8 @@ def run_job(job, tier, seed):
     world = World(par)
     edges, kindcount = set(), {}
     ncase = 0
-    for hist in histories(par, first, MAXCYCLES(tier), MAXFAIL(tier), FAILMODE(tier, len(par)), shard=(k, nparts)):
+    maxfail, mode, failcyc = PLAN(tier, len(par))
+    for hist in histories(par, first, MAXCYCLES, maxfail, mode, failcyc, shard=(k, nparts)):
         viols, obs, kinds = execute(par, first, hist, world)
         ncase += 1
         for kd in kinds:
@@ -572,4 +574,4 @@ def replay(job, case):
 
 def finish(total, tier):
     return dict(forests=sum(len(forests(n)) for n in range(1, NBOXES(tier) + 1)),
-                max_failing_preconditions_per_history=MAXFAIL(tier))
+                max_failing_preconditions_per_history=BOUND(tier))
